@@ -61,6 +61,7 @@ func (s *compositeSchedule) Start(startAt time.Time) {
 	s.scheds[0].Start(startAt)
 }
 func (s *compositeSchedule) Next() (tx time.Time, ok bool) {
+	verifYield("next.enter")
 	s.rwMu.RLock()
 	tx, ok = s.scheds[0].Next()
 	if ok {
@@ -74,6 +75,7 @@ func (s *compositeSchedule) Next() (tx time.Time, ok bool) {
 	}
 	// Current schedule is finished, but some are left.
 	// Let's start next, with got finish time from previous!
+	verifYield("next.upgrade")
 	s.rwMu.Lock()
 	schedsLeftNow := len(s.scheds)
 	somebodyStartedNextBeforeUs := schedsLeftNow < schedsLeft
@@ -99,6 +101,7 @@ func (s *compositeSchedule) Next() (tx time.Time, ok bool) {
 }
 
 func (s *compositeSchedule) Left() int {
+	verifYield("left.enter")
 	s.rwMu.RLock()
 	schedsLeft := len(s.scheds)
 	leftAfter := int(s.leftAfter[0])
@@ -113,6 +116,7 @@ func (s *compositeSchedule) Left() int {
 		}
 		// leftAfter was unknown, at schedule create moment.
 		// But now, it can be finished. Let's shift, and try one more time.
+		verifYield("left.upgrade")
 		s.rwMu.Lock()
 		shedsLeftNow := len(s.scheds)
 		if shedsLeftNow == schedsLeft {
